@@ -102,6 +102,7 @@ def rand_stream(rng, npk, big=False):
         else:
             ids[1] = (ids[1][0], ids[0][1])
     pkts = []
+    seen_links, seen_fees = set(), set()       # the first packet of a link / FEE id opens every filtered output: it keeps a valid RDH0
     for k in range(npk):
         link, fee = rng.choice(ids)
         r = rng.random()
@@ -118,6 +119,15 @@ def rand_stream(rng, npk, big=False):
                              bc=rng.randrange(0xDEC), trigger=rng.randrange(1, 1 << 32), pages=rng.randrange(4), stop=rng.randrange(2),
                              fmt=rng.choice([0, 2]), detfield=rng.randrange(1 << 32), par=rng.randrange(1 << 16), cru=rng.randrange(4096),
                              dw=rng.randrange(16), res0=rng.choice([0, 0, 7]), sysid=rng.choice([32, 32, 3, 200]))
+        if (link in seen_links and fee in seen_fees) and rng.random() < 0.25:
+            # framing depends on offset_to_next / memory_size only: the header-size byte of the RDH0 (vetted on the very first RDH
+            # of an input only -- hence not varied on the packet that opens a link / FEE id, which opens the filtered outputs)
+            # may claim anything -- the header is 64 bytes whatever it says
+            rdh = bytearray(rdh)
+            rdh[1] = rng.choice([0x00, 0x20, 0x3F, 0x41, 0x50, 0x80, 0xFF])
+            rdh = bytes(rdh)
+        seen_links.add(link)
+        seen_fees.add(fee)
         pkts.append((rdh, payload))
     return pkts, ids
 
